@@ -130,7 +130,7 @@ func (s *Shard) Init() error {
 	// components were opened and initialized for writing whatever mode the
 	// shard is configured with, bring them in line with it
 	if m := s.GetMode(); m != mode.ReadWrite {
-		if err := s.SetMode(m); err != nil {
+		if err := s.applyConfiguredMode(m); err != nil {
 			return fmt.Errorf("could not set configured mode %s: %w", m, err)
 		}
 	}
